@@ -30,8 +30,6 @@ def H(name, file, props, **kw):
 # needs more than its bound is reported (inconclusive), never silently truncated.
 STEP_UWS = [
     (r'4mqtt6packet', 6),                # loops of the packet modules (identifier bytes, entries, reason codes)
-    (r'verif_model', 8),                 # container / event-list models: capacity + 1
-    (r'verif_harness', 10),              # harness-side loops (monitor, count, reference models)
     (r'variable_byte_integer', 5),       # 1-4 byte integers
     (r'arrayvec', 6),
     (r'memcmp|compare_bytes|SlicePartialEq|5slice3cmp', 8),
@@ -43,6 +41,9 @@ STEP_UWS = [
     (r'packet_builder', 8),
     (r'6cursor', 8),
     (r'mqtt_string|mqtt_binary|arc_payload', 8),
+    (r'drop_glue', 8),                   # slot arrays of the container models
+    (r'verif_model', 8),                 # container / event-list models: capacity + 1
+    (r'verif_harness', 10),              # harness-side loops (monitor, count, reference models)
     # last (overrides the rules above): any loop over a list of properties - at most 2 properties in any harness,
     # phantom iterations (27-way switch each) are cut
     (r'8property8Property|8property.*Properties|_properties', 3),
